@@ -10,14 +10,16 @@ def run(tier):
     f = out['facts']
     cons = [e for e in f if e['e'] == 'Consistent']
     rel = [e for e in f if e['e'] == 'Related']
-    chk.count(evaluations=len(cons) + len(rel), distinct=len(cons) + len(rel))
+    impl = [e for e in f if e['e'] == 'ImplCoherent']
+    chk.count(evaluations=len(cons) + len(rel) + len(impl), distinct=len(cons) + len(rel) + len(impl))
     chk.cov['rule'] = ('one fact per (unit type, unit system) entry of the forward table read through ConsistentUnit<U>() and the '
                        'Internal map, and one per enumerator for RelatedUnitSystem(); every fact is distinct and non-trivial: TLC '
-                       'compares the magnitude bag of the unit symbol with the product of the system base units')
+                       'compares the magnitude bag of the unit symbol with the product of the system base units, and the slope parsed from the body of the '
+                       'consistent unit\'s own conversion routine (both directions) with the product of the implemented slopes of the consistent units of the six base unit types')
     chk.cov['exhaustive'] = True
     for e in cons[:3] + rel[:2]:
         chk.sample(e)
-    chk.layer('A', consistent_entries=len(cons), reverse_lookups=len(rel), systems=4,
+    chk.layer('A', consistent_entries=len(cons), reverse_lookups=len(rel), implemented_coherence_facts=len(impl), systems=4,
               unit_types=len(out['units']))
     chk.assumptions += ['spec/atoms.def gives the SI definitions of the unit atoms (hand-written, independent of the code)',
                         'symbols are tokenised outside TLC; an untokenisable symbol is reported as inconclusive, not as a violation']
